@@ -1,13 +1,354 @@
 package harness
 
 import (
+	"bytes"
+	"crypto/ecdsa"
+	"crypto/elliptic"
+	"crypto/rand"
+	"crypto/tls"
+	"crypto/x509"
+	"crypto/x509/pkix"
+	"io"
+	"math/big"
+	"net"
+	"sync"
+	"time"
+
 	smtp "github.com/emersion/go-smtp"
 )
 
+// Real TLS for the conversation harness.
+//
+// PhasedConn is the server's net.Conn. In its plaintext phase it behaves like
+// ScriptConn (scripted raw read results, writes recorded). When the plaintext
+// script is exhausted right after the server has answered STARTTLS with 220 -
+// i.e. exactly when crypto/tls starts reading the ClientHello - and a TLS
+// phase is scripted, a real TLS client (crypto/tls) is attached: it performs
+// the handshake and then sends the octets of the TLS phase, one tls.Conn.Write
+// (= one TLS record = one raw read result of the server's tls.Conn) per
+// scripted chunk. What the server writes inside TLS is decrypted by that client
+// and recorded as wire output; the server's Write returns only after the
+// client has consumed it, so the recorded order of wire output and backend
+// callbacks is the real one.
+
+var (
+	certOnce   sync.Once
+	serverCert tls.Certificate
+)
+
+func testCert() tls.Certificate {
+	certOnce.Do(func() {
+		key, err := ecdsa.GenerateKey(elliptic.P256(), rand.Reader)
+		if err != nil {
+			panic(err)
+		}
+		tmpl := &x509.Certificate{
+			SerialNumber: big.NewInt(1),
+			Subject:      pkix.Name{CommonName: "verif"},
+			NotBefore:    time.Now().Add(-time.Hour),
+			NotAfter:     time.Now().Add(24 * time.Hour),
+			DNSNames:     []string{"verif"},
+			KeyUsage:     x509.KeyUsageDigitalSignature,
+			ExtKeyUsage:  []x509.ExtKeyUsage{x509.ExtKeyUsageServerAuth},
+		}
+		der, err := x509.CreateCertificate(rand.Reader, tmpl, tmpl, &key.PublicKey, key)
+		if err != nil {
+			panic(err)
+		}
+		serverCert = tls.Certificate{Certificate: [][]byte{der}, PrivateKey: key}
+	})
+	return serverCert
+}
+
+func serverTLSConfig() *tls.Config {
+	return &tls.Config{Certificates: []tls.Certificate{testCert()}}
+}
+
+type PhasedConn struct {
+	mu   sync.Mutex
+	cond *sync.Cond
+
+	script   []Raw // plaintext phase
+	Log      []Raw // what the plaintext Reads returned
+	tlsPhase []Raw // to be sent inside TLS (nil: no TLS phase scripted)
+	haveTLS  bool
+	TLSLog   []Raw // what the TLS client sent, one entry per record
+
+	mode      int // 0 plaintext, 1 TLS
+	lastPlain []byte
+	c2s, s2c  bytes.Buffer
+	c2sClosed bool
+	idle      bool // the TLS client is blocked waiting for server output
+	clientEnd bool // the TLS client has stopped reading
+	closed    bool
+
+	OnRead func()
+	OnWire func([]byte)
+}
+
+func NewPhasedConn(plain []Raw, tlsPhase []Raw, haveTLS bool, startInTLS bool) *PhasedConn {
+	c := &PhasedConn{tlsPhase: tlsPhase, haveTLS: haveTLS}
+	c.cond = sync.NewCond(&c.mu)
+	for _, r := range plain {
+		if r.Kind == RawData && len(r.Data) == 0 {
+			continue
+		}
+		c.script = append(c.script, r)
+	}
+	if startInTLS {
+		c.mode = 1
+		go c.runClient()
+	}
+	return c
+}
+
+var startTLSReply = []byte("220 2.0.0 Ready to start TLS\r\n")
+
+func (c *PhasedConn) Read(b []byte) (int, error) {
+	if c.OnRead != nil {
+		c.OnRead()
+	}
+	c.mu.Lock()
+	defer c.mu.Unlock()
+	if c.closed {
+		return 0, net.ErrClosed
+	}
+	if len(b) == 0 {
+		return 0, nil
+	}
+	if c.mode == 0 {
+		if len(c.script) == 0 {
+			if c.haveTLS && bytes.HasSuffix(c.lastPlain, startTLSReply) {
+				c.mode = 1
+				go c.runClient()
+			} else {
+				return 0, io.EOF
+			}
+		} else {
+			r := c.script[0]
+			switch r.Kind {
+			case RawData:
+				n := copy(b, r.Data)
+				c.Log = append(c.Log, Raw{Kind: RawData, Data: append([]byte(nil), r.Data[:n]...)})
+				if n == len(r.Data) {
+					c.script = c.script[1:]
+				} else {
+					c.script[0].Data = r.Data[n:]
+				}
+				return n, nil
+			case RawEOF:
+				c.script = c.script[1:]
+				c.Log = append(c.Log, Raw{Kind: RawEOF})
+				return 0, io.EOF
+			case RawTimeout:
+				c.script = c.script[1:]
+				c.Log = append(c.Log, Raw{Kind: RawTimeout})
+				return 0, ErrScriptTimeout
+			default:
+				c.script = c.script[1:]
+				c.Log = append(c.Log, Raw{Kind: RawErr})
+				return 0, ErrScriptNet
+			}
+		}
+	}
+	for c.c2s.Len() == 0 && !c.c2sClosed && !c.closed {
+		c.cond.Wait()
+	}
+	if c.closed {
+		return 0, net.ErrClosed
+	}
+	if c.c2s.Len() > 0 {
+		return c.c2s.Read(b)
+	}
+	return 0, io.EOF
+}
+
+func looksLikeTLSRecord(b []byte) bool {
+	return len(b) >= 3 && b[0] >= 0x14 && b[0] <= 0x17 && b[1] == 3
+}
+
+func (c *PhasedConn) Write(b []byte) (int, error) {
+	c.mu.Lock()
+	if c.closed {
+		c.mu.Unlock()
+		return 0, net.ErrClosed
+	}
+	if c.mode == 0 {
+		if looksLikeTLSRecord(b) {
+			// the alert of a failed handshake: TLS-layer output, not a reply
+			c.mu.Unlock()
+			return len(b), nil
+		}
+		c.lastPlain = append(c.lastPlain[:0], b...)
+		c.mu.Unlock()
+		if c.OnWire != nil {
+			c.OnWire(b)
+		}
+		return len(b), nil
+	}
+	c.s2c.Write(b)
+	c.cond.Broadcast()
+	for !(c.s2c.Len() == 0 && c.idle) && !c.clientEnd && !c.closed {
+		c.cond.Wait()
+	}
+	c.mu.Unlock()
+	return len(b), nil
+}
+
+func (c *PhasedConn) Close() error {
+	c.mu.Lock()
+	c.closed = true
+	c.cond.Broadcast()
+	c.mu.Unlock()
+	return nil
+}
+
+func (c *PhasedConn) Remaining() []Raw {
+	c.mu.Lock()
+	defer c.mu.Unlock()
+	return append([]Raw(nil), c.script...)
+}
+
+func (c *PhasedConn) LocalAddr() net.Addr                { return fakeAddr{} }
+func (c *PhasedConn) RemoteAddr() net.Addr               { return fakeAddr{} }
+func (c *PhasedConn) SetDeadline(t time.Time) error      { return nil }
+func (c *PhasedConn) SetReadDeadline(t time.Time) error  { return nil }
+func (c *PhasedConn) SetWriteDeadline(t time.Time) error { return nil }
+
+// clientSide is the TLS client's view of the connection.
+type clientSide struct{ c *PhasedConn }
+
+func (s clientSide) Read(b []byte) (int, error) {
+	c := s.c
+	c.mu.Lock()
+	defer c.mu.Unlock()
+	for c.s2c.Len() == 0 && !c.closed {
+		c.idle = true
+		c.cond.Broadcast()
+		c.cond.Wait()
+	}
+	c.idle = false
+	if c.s2c.Len() > 0 {
+		n, _ := c.s2c.Read(b)
+		return n, nil
+	}
+	return 0, io.EOF
+}
+
+func (s clientSide) Write(b []byte) (int, error) {
+	c := s.c
+	c.mu.Lock()
+	c.c2s.Write(b)
+	c.cond.Broadcast()
+	c.mu.Unlock()
+	return len(b), nil
+}
+
+func (s clientSide) Close() error {
+	c := s.c
+	c.mu.Lock()
+	c.c2sClosed = true
+	c.cond.Broadcast()
+	c.mu.Unlock()
+	return nil
+}
+func (s clientSide) LocalAddr() net.Addr                { return fakeAddr{} }
+func (s clientSide) RemoteAddr() net.Addr               { return fakeAddr{} }
+func (s clientSide) SetDeadline(t time.Time) error      { return nil }
+func (s clientSide) SetReadDeadline(t time.Time) error  { return nil }
+func (s clientSide) SetWriteDeadline(t time.Time) error { return nil }
+
+func (c *PhasedConn) runClient() {
+	defer func() {
+		c.mu.Lock()
+		c.clientEnd = true
+		c.c2sClosed = true
+		c.cond.Broadcast()
+		c.mu.Unlock()
+	}()
+	tc := tls.Client(clientSide{c}, &tls.Config{InsecureSkipVerify: true, DynamicRecordSizingDisabled: true})
+	if err := tc.Handshake(); err != nil {
+		return
+	}
+	go func() {
+		for _, r := range c.tlsPhase {
+			if r.Kind != RawData {
+				break
+			}
+			if len(r.Data) == 0 {
+				continue
+			}
+			c.mu.Lock()
+			c.TLSLog = append(c.TLSLog, Raw{Kind: RawData, Data: append([]byte(nil), r.Data...)})
+			c.mu.Unlock()
+			if _, err := tc.Write(r.Data); err != nil {
+				return
+			}
+		}
+		tc.CloseWrite()
+	}()
+	buf := make([]byte, 32768)
+	for {
+		n, err := tc.Read(buf)
+		if n > 0 && c.OnWire != nil {
+			c.OnWire(buf[:n])
+		}
+		if err != nil {
+			return
+		}
+	}
+}
+
+// runTLSConvImpl: conversations with TLS available (STARTTLS) or implicit TLS.
 func runTLSConvImpl(s *smtp.Server, be *RecBackend, c ConvCase) [][]Raw {
-	// TODO real TLS; for now plaintext phase only (TLSConfig left nil)
-	sc := NewScriptConn(c.Phases[0])
-	sc.OnWrite = be.AddWire
-	serveOne(s, sc)
-	return [][]Raw{append(append([]Raw(nil), sc.Log...), sc.Remaining()...)}
+	if c.Cfg.TLSConfig {
+		s.TLSConfig = serverTLSConfig()
+	}
+	var pc *PhasedConn
+	var conn net.Conn
+	var lst *oneListener
+	if c.Cfg.ImplicitTLS {
+		pc = NewPhasedConn(nil, c.Phases[0], true, true)
+		cn := newNotify(pc)
+		conn = tls.Server(cn, serverTLSConfig())
+		lst = newOneListenerWrapped(conn, cn)
+	} else {
+		var tp []Raw
+		have := len(c.Phases) > 1
+		if have {
+			tp = c.Phases[1]
+		}
+		pc = NewPhasedConn(c.Phases[0], tp, have, false)
+		conn = pc
+	}
+	pc.OnWire = func(p []byte) { be.AddWire(p); be.SyncPoint() }
+	pc.OnRead = be.SyncPoint
+	be.Baseline = 0
+	if lst == nil {
+		lst = newOneListener(conn)
+	}
+	serveOn(s, lst, conn)
+	// wait for the TLS client to finish
+	pc.mu.Lock()
+	deadline := time.Now().Add(5 * time.Second)
+	for pc.mode == 1 && !pc.clientEnd && time.Now().Before(deadline) {
+		pc.mu.Unlock()
+		time.Sleep(200 * time.Microsecond)
+		pc.mu.Lock()
+	}
+	plain := append(append([]Raw(nil), pc.Log...), pc.script...)
+	tlsLog := append([]Raw(nil), pc.TLSLog...)
+	mode := pc.mode
+	pc.mu.Unlock()
+	if c.Cfg.ImplicitTLS {
+		return [][]Raw{append(tlsLog, Raw{Kind: RawEOF})}
+	}
+	if mode == 1 {
+		return [][]Raw{plain, append(tlsLog, Raw{Kind: RawEOF})}
+	}
+	if len(c.Phases) > 1 {
+		// the TLS phase was never reached: report it as scripted
+		return [][]Raw{plain, c.Phases[1]}
+	}
+	return [][]Raw{plain}
 }
